@@ -97,6 +97,11 @@ pub fn space(thorough: bool) -> Vec<Prog> {
         out.push(build(vec![s0.clone(), s1.clone()], vec![("vs_a".into(), vec![Some(0)]), ("vs_b".into(), vec![Some(0)])], format!("entry|shared-struct|{i}")));
         out.push(build(vec![s0.clone(), s1.clone()], vec![("vs_a".into(), vec![Some(0)]), ("vs_b".into(), vec![Some(1)])], format!("entry|two-entries|{i}")));
         out.push(build(vec![s0.clone(), s1.clone()], vec![("vs_a".into(), vec![Some(1), Some(0)]), ("vs_b".into(), vec![Some(0)]), ("vs_c".into(), vec![])], format!("entry|three-entries|{i}")));
+        // two entries whose structs reuse the same locations with different types
+        let o0 = StructDef { name: "MeshVertex".into(), members: vec![Member::located("position", a.clone(), 0), Member::located("uv", Ty::Vec(2, f), 1)] };
+        let o1 = StructDef { name: "SpriteVertex".into(), members: vec![Member::located("cell", b.clone(), 0), Member::located("layer", Ty::Vec(4, Scalar::U32), 1)] };
+        out.push(build(vec![o0.clone(), o1.clone()], vec![("vs_mesh".into(), vec![Some(0)]), ("vs_sprite".into(), vec![Some(1)])], format!("entry|overlapping-locations|{i}")));
+        out.push(build(vec![o1.clone(), o0.clone()], vec![("vs_sprite".into(), vec![Some(0)]), ("vs_mesh".into(), vec![Some(1)])], format!("entry|overlapping-locations-swapped|{i}")));
         // a shared struct with another struct collected between its uses
         out.push(build(vec![s0.clone(), s1.clone()], vec![("vs_a".into(), vec![Some(0), Some(1)]), ("vs_b".into(), vec![Some(0)])], format!("entry|shared-interleaved-aba|{i}")));
         out.push(build(vec![s0.clone(), s1.clone()], vec![("vs_a".into(), vec![Some(0)]), ("vs_b".into(), vec![Some(1)]), ("vs_c".into(), vec![Some(0)])], format!("entry|shared-interleaved-a-b-a|{i}")));
